@@ -102,28 +102,29 @@ def showPriv (full : Bool) (p : Spec.PrivateInfo) : String :=
   s!"{dashList (p.blueValues.map toString)}.{dashList (p.otherBlues.map toString)}.{p.blueShift}.{p.blueFuzz}.{if p.forceBold then 1 else 0}" ++
   (if full then s!".{showDec p.blueScale}.{showDec p.stdHW}.{showDec p.stdVW}" else "")
 
-def showFont (f : Spec.FontSummary) (full : Bool := false) : String :=
+def showFont (f : Spec.FontSummary) (full : Bool := false) (withEnc : Bool := true) : String :=
   s!"name:{showBlob f.fontName};strs:{",".intercalate (f.strs.map showStr)};fixed:{if f.isFixedPitch then 1 else 0}" ++
   s!";ul:{showDec f.underlinePos},{showDec f.underlineThick};n:{f.nGlyphs}" ++
   (match f.ros with
    | some (r, o, sup) => s!";cs:{natsToString f.charset};names:-;ros:{showStr r},{showStr o},{sup}"
    | none => s!";cs:-;names:{dashList ((f.names.getD []).map showStr)};ros:-") ++
   s!";fds:{natsToString f.fds};privs:{"/".intercalate (f.privs.map (showPriv full))};w:{",".intercalate (f.widths.map showDec)}" ++
-  (match f.encoding with
-   | some e => s!";enc:{natsToString e}"
-   | none => "") ++
+  (match f.encoding, withEnc with
+   | some e, true => s!";enc:{natsToString e}"
+   | _, _ => "") ++
   (if full then
     s!";angle:{showDec f.italicAngle};fm:{",".intercalate (f.fontMatrix.map showDec)}" ++
     (if f.ros.isSome then s!";fms:{"/".intercalate (f.fdMatrices.map fun m => ",".intercalate (m.map showDec))}" else "")
    else "")
 
-@[noinline] def readFontWith (std : Array String) (b : Bytes) := Spec.readFont std b
 
 def tables : Tables :=
   { std := Gen.cffStdStrings, isoAdobe := Gen.cff_isoAdobeCharset, expert := Gen.cff_expertCharset,
     expertSubset := Gen.cff_expertSubsetCharset, expertEnc := Gen.cffExpertEnc,
     standardEncRev := Gen.cffStandardEncRev }
 
+
+@[noinline] def readFontWith (T : Tables) (b : Bytes) := Spec.readFont T b
 
 /-! parsing of the font description `name:…;strs:…;…` (see harness/area_cff.go, c13Font) -/
 
@@ -388,8 +389,9 @@ def handle (op : String) (fs : List (String × String)) : String :=
   else if op == "cff.file.spec" then
     match (getField fs "file").bind fromHex with
     | some d =>
-      match readFontWith Gen.cffStdStrings d with
+      match readFontWith tables d with
       | some f => showFont f (decide ((((getField fs "want").getD "").splitOn ";angle:").length > 1))
+          (decide ((((getField fs "want").getD "").splitOn ";enc:").length > 1))
       | none => "none"
     | none => "bad-case"
   else "bad-op"
